@@ -61,6 +61,9 @@ pub struct Scenario {
 	/// checkpoint (kept, then opened on its own) against a compaction round and a background flush;
 	/// no committers: the checkpoint must hold exactly the committed data
 	pub checkpoint_vs_bg: bool,
+	/// the store starts with two immutable memtables pending (at the stall limit) and there is no
+	/// background thread: only the closer's shutdown signal can release a stalled writer
+	pub two_pending: bool,
 	/// preemption bounds (quick, thorough)
 	pub bounds: (usize, usize),
 }
@@ -84,6 +87,7 @@ pub fn scenarios(property: &str, tier: Tier) -> Vec<Scenario> {
 		room: 1,
 		two_flushers: false,
 		checkpoint_vs_bg: false,
+		two_pending: false,
 		bounds: (2, 3),
 	};
 	let all = vec![
@@ -150,6 +154,17 @@ pub fn scenarios(property: &str, tier: Tier) -> Vec<Scenario> {
 			bg: true,
 			near_full: true,
 			stall_low: true,
+			closer: true,
+			..base.clone()
+		},
+		Scenario {
+			name: "c17-shutdown-while-stalled-no-flusher",
+			property: "C17",
+			bounds: (2, 3),
+			committers: vec![vec!["a0"], vec!["a1"]],
+			near_full: true,
+			stall_low: true,
+			two_pending: true,
 			closer: true,
 			..base.clone()
 		},
@@ -400,6 +415,10 @@ fn setup(sc: &Scenario) -> Result<Setup, String> {
 			w.commit(&[crate::model::Write::set(format!("more{i:03}").as_bytes(), b"0123456789012345678901234567890123456789")], surrealkv::Durability::Eventual)?.map_err(|e| e)?;
 		}
 		prefill *= 2;
+	}
+	if sc.two_pending {
+		// a second pending immutable memtable: the store is at the memtable stall limit
+		w.physical(crate::world::Phys::Rotate)?;
 	}
 	if sc.reader {
 		// something for the reader to see, already on disk in L0
@@ -736,6 +755,12 @@ fn run_schedule(sc: &Scenario, prefix: &[usize]) -> Result<Outcome, String> {
 	if let Some(f) = &ex.failure {
 		if f.starts_with("machinery") {
 			return Err(f.clone());
+		}
+		if f.starts_with("real-deadlock") {
+			// blocked threads still hold parts of the store: do not touch it again
+			out.failure = Some(("real-deadlock".to_string(), f.clone()));
+			std::mem::forget(su);
+			return Ok(out);
 		}
 		out.failure = Some((if f.starts_with("deadlock") { "deadlock" } else { "livelock" }.to_string(), f.clone()));
 		return Ok(out);
@@ -1159,6 +1184,9 @@ fn explore_scenario(sc: &Scenario, bound: usize, budget: &Budget, found: &mut Ve
 		outcomes: BTreeSet::new(),
 		complete: true,
 	};
+	// a real lock cycle costs a watchdog period per execution and leaves blocked threads behind:
+	// stop the scenario at the first one
+	let halt = AtomicBool::new(false);
 	// root execution gives the first-level branches; subtrees are explored in parallel
 	let root = run_schedule(sc, &[])?;
 	let mut first: Vec<Vec<usize>> = vec![];
@@ -1186,6 +1214,9 @@ fn explore_scenario(sc: &Scenario, bound: usize, budget: &Budget, found: &mut Ve
 		}
 		stats.outcomes.insert(o.obs_hash);
 		if let Some((c, t)) = &o.failure {
+			if c == "real-deadlock" {
+				halt.store(true, Ordering::SeqCst);
+			}
 			let choices: Vec<usize> = o.exec_points.iter().map(|p| p.chosen).collect();
 			let labels: Vec<String> = o.exec_points.iter().filter(|p| p.chosen != 0).map(|p| format!("{}->t{}", p.label, p.enabled[p.chosen])).collect();
 			found.push((
@@ -1213,7 +1244,7 @@ fn explore_scenario(sc: &Scenario, bound: usize, budget: &Budget, found: &mut Ve
 		// sequential DFS below this first-level branch; branching only beyond the branch's prefix
 		let mut stack: Vec<Vec<usize>> = vec![start.clone()];
 		while let Some(prefix) = stack.pop() {
-			if budget.exhausted() {
+			if budget.exhausted() || halt.load(Ordering::SeqCst) {
 				st.complete = false;
 				break;
 			}
